@@ -387,7 +387,7 @@ class World(object):
             f = json.loads(payload.decode("utf-8"))
         except Exception as e:
             self.anomalies.append("frame is not JSON: %r" % (payload,))
-            self.log.append(["F", c, clean, "garbage"])
+            self.log.append(["F", c, clean, "garbage", None])
             return
         if is_binary:
             self.anomalies.append("binary frame")
@@ -401,8 +401,10 @@ class World(object):
                 self.anomalies.append("frame %r has keys %r, expected %r" % (kind, sorted(keys), sorted(ks)))
         if kind == "welcome":
             need("welcome")
+            wd = f.get("welcome") if isinstance(f.get("welcome"), dict) else {}
             if f.get("welcome") != self.expected_welcome():
                 self.anomalies.append("welcome %r != configured %r" % (f.get("welcome"), self.expected_welcome()))
+            ent += [hx(wd.get("motd")), hx(wd.get("current_cli_version")), hx(wd.get("error"))]
         elif kind == "ack":
             need("id")
             ent.append(hx(f.get("id")))
@@ -415,6 +417,8 @@ class World(object):
             ent.append(e if e in ("crowded", "reclaimed") else "other")
             if f.get("orig") != self.current_msg:
                 self.anomalies.append("error frame orig %r != command %r" % (f.get("orig"), self.current_msg))
+            import trace as _T
+            ent.append(_T.project_cmd(f.get("orig")) if isinstance(f.get("orig"), dict) else {"nonobject": repr(f.get("orig"))})
         elif kind == "nameplates":
             need("nameplates")
             l = f.get("nameplates")
@@ -439,6 +443,11 @@ class World(object):
         else:
             self.anomalies.append("unknown frame type %r" % (kind,))
             ent.append({"raw": f})
+        # the send time stamp, last (the model stamps every frame with the clock of the event)
+        try:
+            ent.append(ticks(f.get("server_tx")))
+        except Exception:
+            ent.append({"server_tx": repr(f.get("server_tx"))})
         self.log.append(ent)
 
     def graph(self):
